@@ -230,7 +230,7 @@ PROPS = {
     "C11": {
         "rule": "live dumps under every subset of the five fail points (32 combinations, 1 … 5 threads, with / without an unresolvable principal mapping) and "
                 "under naturally induced failures: a thread name that is not UTF-8, garbage where the program headers are expected (direct auxv), a thread "
-                "traced by another process, nothing induced. The soft-error stream is parsed with serde_json and reduced to its list of variant paths. "
+                "traced by another process, threads that exit between enumeration and attach (each omitted thread must be a reported soft error), nothing induced. The soft-error stream is parsed with serde_json and reduced to its list of variant paths. "
                 "Distinct = (scenario, mask, #threads, principal).",
         "expected_tags": ["scen.faults", "scen.badname", "scen.baddso", "scen.traced", "scen.none", "mask.0", "mask.31"],
         "extra_theorems": ["plan_best_effort_soft", "plan_soft_errors_last"],
@@ -243,10 +243,11 @@ PROPS = {
     },
     "C03": {
         "rule": "live: dumps that succeed, fail hard (unreadable app memory), hit a destination I/O error or a destination panic at a random call index 0 … 45, "
-                "or run with the process-wide stop disabled, against targets with blocked and busy threads; realtime signals are sent to chosen threads at the "
+                "run with the process-wide stop disabled or with a stop that times out, against targets with blocked and busy threads and, in one case in three, a "
+                "sandbox-helper-like thread (null stack pointer: attached, then skipped); realtime signals are sent to chosen threads at the "
                 "sync-hook points dump_start / threads_enumerated / before_attach(tid) / threads_suspended / before_resume / after_resume. Afterwards: "
                 "State and TracerPid of every task, per-thread delivered-signal counters, heartbeat of busy threads. Distinct = (scenario, outcome, call, #tasks, #signals).",
-        "expected_tags": ["scen.ok", "scen.destfail", "scen.destpanic", "scen.badapp", "scen.nostop", "scen.ok-signals", "scen.destfail-signals", "signals.checked", "spin.checked", "result.panic"],
+        "expected_tags": ["scen.ok", "scen.destfail", "scen.destpanic", "scen.badapp", "scen.nostop", "scen.stoptimeout", "scen.ok-signals", "scen.destfail-signals", "signals.checked", "spin.checked", "result.panic", "thread.nullsp"],
         "trusted_base": ["kernel semantics of ptrace attach / signal-delivery-stop / detach / group stop / SIGCONT (assumed; the live matrix observes their effect)",
                          "a failed PTRACE_CONT or a non-stop wait status means the tracee no longer exists"],
         "assumptions": ["partial: the kernel side is not modelled beyond the assumptions above; externally sent SIGSTOP/SIGCONT are excluded",
